@@ -375,6 +375,11 @@ class OrderedMultiDict(dict, MutableMappingSequence):
 
         kvlist = _insert_arg_helper(args)
 
+        if index < 0:
+            # Resolve a negative index once, like list.insert() would, so
+            # that incrementing it below keeps the new pairs together.
+            index = max(0, len(self.__items) + index)
+
         for (key, value) in kvlist:
             self.__items.insert(index, (key, value))
             index += 1
